@@ -3762,6 +3762,13 @@ def missing_context_manager(source: str) -> str:
                 removals.append(node)
                 break
 
+        if any(
+            core.has_ignore_comment(source, core.get_charnos(node, source))
+            for node in (asmt, *nodes, *removals)
+        ):
+            removals = []
+            continue
+
         removals.extend(nodes)
 
         replacements[asmt] = ast.With(
